@@ -373,19 +373,43 @@ pub async fn run_replay(ad: &mut dyn Adapter, input: &str, with_finale: bool, ou
     st
 }
 
-/// How callers obtain the service they call (state shared by all clones must not depend on it):
+// How callers obtain the service they call (state shared by all clones must not depend on it):
+thread_local! {
+    /// set while a parked handle (driven to readiness long ago) is being used: the adapter must not poll it again
+    pub static SKIP_READY: std::cell::Cell<bool> = const { std::cell::Cell::new(false) };
+}
+/// poll_ready with a no-op waker, unless the handle in use was driven to readiness earlier (mode 3)
+pub fn ready_unless_parked<S: tower::Service<Req>>(s: &mut S) {
+    if SKIP_READY.with(|c| c.get()) {
+        return;
+    }
+    let w = futures::task::noop_waker();
+    let mut cx = std::task::Context::from_waker(&w);
+    let _ = s.poll_ready(&mut cx);
+}
 /// mode 0 = a fresh clone per request, 1 = one long-lived handle for every request,
-/// 2 = two long-lived clones used alternately.
+/// 2 = two long-lived clones used alternately, 3 = a fresh clone per request, except that every
+/// third request goes through the handle that has been ready (and parked) the longest - Tower
+/// allows any delay between poll_ready and call.
 pub struct Handles<S: Clone> {
     pub base: S,
     alt: S,
     pub mode: u64,
     n: u64,
+    parked: std::collections::VecDeque<S>,
 }
-impl<S: Clone> Handles<S> {
+impl<S: Clone + tower::Service<Req>> Handles<S> {
     pub fn new(base: S, mode: u64) -> Self {
         let alt = base.clone();
-        Handles { base, alt, mode, n: 0 }
+        let mut parked = std::collections::VecDeque::new();
+        if mode == 3 {
+            for _ in 0..3 {
+                let mut p = base.clone();
+                ready_unless_parked(&mut p);
+                parked.push_back(p);
+            }
+        }
+        Handles { base, alt, mode, n: 0, parked }
     }
     /// run f on the handle chosen for the next request
     pub fn with<R>(&mut self, f: impl FnOnce(&mut S) -> R) -> R {
@@ -398,6 +422,16 @@ impl<S: Clone> Handles<S> {
                 } else {
                     f(&mut self.base)
                 }
+            }
+            3 if self.n % 3 == 0 => {
+                let mut p = self.parked.pop_front().unwrap();
+                SKIP_READY.with(|c| c.set(true));
+                let r = f(&mut p);
+                SKIP_READY.with(|c| c.set(false));
+                let mut next = self.base.clone();
+                ready_unless_parked(&mut next);
+                self.parked.push_back(next);
+                r
             }
             _ => {
                 let mut c = self.base.clone();
